@@ -8,6 +8,7 @@ def parseOp (s : String) : Option (Op Nat) :=
   let tl := (s.drop 1).toString
   match s.front with
   | 'x' => tl.toNat?.map fun n => .exec (List.range n)
+  | 'y' => tl.toNat?.map fun v => .exec [v]        -- a statement answering with one (status) row
   | 'o' => some .one
   | 'm' => tl.toNat?.map .many
   | 'a' => some .all
